@@ -58,5 +58,50 @@ LOOPS.update({
     "bn=bn exp=exp base=1::base")],
 })
 
-def compose(fns):
-    return {"functions": [{fn: LOOPS[fn]} for fn in fns]}
+
+# value of a bn_t as unsigned long (W = 8 jobs only, maxd <= 7): used for decreases clauses
+def VALX(acc, maxd, entry=False):
+    def fld(f):
+        e = "%s%s" % (acc, f)
+        return "__CPROVER_loop_entry(%s)" % e if entry else e
+    return "(" + " + ".join("((%dul < %s) ? (((unsigned long)%s) << %d) : 0ul)" % (i, fld("digits"), fld("num[%d]" % i), 8 * i)
+                            for i in range(maxd)) + ")"
+def VALP(p, maxd, entry=False): return VALX(p + "->", maxd, entry)
+def VALS(v, maxd, entry=False): return VALX(v + ".", maxd, entry)
+PAIR = "((ta == bn && tb == &tmp) || (ta == &tmp && tb == bn))"
+
+def loops_r3(maxd):
+    W = 8
+    return {
+     "bn_gcd": [L("bn_gcd", 9,
+        PAIR + " && " + WFP("bn") + " && " + WFS("tmp"),
+        "ta, tb, " + FRP("bn") + ", " + FRS("tmp"), VALP("tb", maxd),
+        "ta=1::ta tb=1::tb tmp=1::tmp bn=bn")],
+     "bn_gcd_bin": [L("bn_gcd_bin", 7,
+        PAIR + " && " + WFP("bn") + " && " + WFS("tmp") + " && ta->digits != 0 && (tb->digits == 0 || shift_b < tb->digits * %d)" % W,
+        "ta, tb, shift_b, " + FRP("bn") + ", " + FRS("tmp"), VALP("ta", maxd) + " + " + VALP("tb", maxd),
+        "ta=1::ta tb=1::tb tmp=1::tmp bn=bn shift_b=1::shift_b")],
+     "bn_mod_inv_bin": [
+       L("bn_mod_inv_bin", 8,
+        WFS("u") + " && " + WFS("x1") + " && " + VALS("u", maxd) + " <= " + VALS("u", maxd, True) +
+        " && " + VALS("x1", maxd) + " < " + VALP("m", maxd) + " && x1.count > m->digits",
+        FRS("u") + ", " + FRS("x1"), VALS("u", maxd), "u=1::u x1=1::x1 m=m"),
+       L("bn_mod_inv_bin", 10,
+        WFS("v") + " && " + WFS("x2") + " && " + VALS("v", maxd) + " <= " + VALS("v", maxd, True) +
+        " && " + VALS("x2", maxd) + " < " + VALP("m", maxd) + " && x2.count > m->digits",
+        FRS("v") + ", " + FRS("x2"), VALS("v", maxd), "v=1::v x2=1::x2 m=m"),
+       L("bn_mod_inv_bin", 15,
+        " && ".join(WFS(x) for x in ("u", "v", "x1", "x2")) +
+        " && " + VALS("x1", maxd) + " < " + VALP("m", maxd) + " && " + VALS("x2", maxd) + " < " + VALP("m", maxd) +
+        " && " + VALS("u", maxd) + " <= " + VALP("m", maxd) + " && " + VALS("v", maxd) + " <= " + VALP("m", maxd) +
+        " && x1.count > m->digits && x2.count > m->digits && u.count >= m->digits && v.count >= m->digits",
+        ", ".join(FRS(x) for x in ("u", "v", "x1", "x2")), VALS("u", maxd) + " + " + VALS("v", maxd),
+        "u=1::u v=1::v x1=1::x1 x2=1::x2 m=m"),
+     ],
+    }
+
+def compose(fns, maxd=None):
+    tbl = dict(LOOPS)
+    if maxd:
+        tbl.update(loops_r3(maxd))
+    return {"functions": [{fn: tbl[fn]} for fn in fns]}
